@@ -59,6 +59,7 @@ def space(ctx):
 
 def shards(ctx):
     import androguard.core.analysis.analysis  # noqa  (warm the import before the pool forks)
+    C.freeze_heap()
     s = [("full4", lo, lo + CH4) for lo in range(0, 75, CH4)]
     s += [("m3", (0, FULL), lo, lo + CHM3) for lo in range(0, 64, CHM3)]
     if ctx.thorough:
